@@ -299,7 +299,10 @@ type world struct {
 	requeued []int           // slice ids re-queued by addPod since last reset
 }
 
-func newWorld() *world {
+func newWorld() *world { return newWorldSys("") }
+
+// newWorldSys builds a controller with Options.SystemNamespace set ("" = none).
+func newWorldSys(sysNS string) *world {
 	w := &world{q: newCtlQueue(), stop: make(chan struct{}), have: map[string]bool{}}
 	w.index = model.NewEndpointIndex(model.DisabledCache{})
 	w.up = &recUpdater{idx: model.NewEndpointIndexUpdater(w.index)}
@@ -312,6 +315,7 @@ func newWorld() *world {
 		DomainSuffix: domain, XDSUpdater: w.up, Metrics: &model.Environment{}, MeshWatcher: mw,
 		ClusterID: w.client.ClusterID(), MeshServiceController: msc,
 		StatusWritingEnabled: activenotifier.New(false), KrtDebugger: new(krt.DebugHandler),
+		SystemNamespace: sysNS,
 	}
 	w.c = controller.NewController(w.client, opts)
 	w.c.VerifSetQueue(w.q)
